@@ -92,6 +92,8 @@ type c16Transport struct{}
 // well-known question (for a delegated name), the answer shows up in its results.
 const c16TrapDelegate = "c16-trap.invalid:1"
 
+const c16MaxHTTPPerCase = 16
+
 type c16SlowReader struct {
 	r *bytes.Reader
 }
@@ -131,7 +133,12 @@ func (c16Transport) RoundTrip(r *http.Request) (*http.Response, error) {
 	active := c16W.active
 	c16W.http = append(c16W.http, c16HTTPReq{Method: r.Method, Scheme: r.URL.Scheme, URLHost: r.URL.Host, HostHeader: r.Host, Path: r.URL.Path})
 	spec, scripted := c16W.wk[strings.ToLower(r.URL.Host)]
+	runaway := len(c16W.http) > c16MaxHTTPPerCase
 	c16W.mu.Unlock()
+	if runaway {
+		// a delegation loop in the code under test must end as a finding, not as a stack overflow
+		return nil, errors.New("c16: too many well-known requests in one case")
+	}
 	if r.Body != nil {
 		_ = r.Body.Close()
 	}
